@@ -74,7 +74,15 @@ CHECKS.update({
          "(n,t) x dealer/DKG x every signer subset x 6 root variants x messages, each in ALL parity combinations (reported per combination): libsecp256k1 verify_schnorr under the output key that libsecp256k1 add_tweak derives with an independently computed TapTweak hash; rejection under the untweaked key; absent root == empty root; honest shares verify; the C04 cheater menu (every cheater subset) in every parity combination; DKG key-path-only tweak; single-signer signing for both key parities.",
          "libsecp256k1 is the trusted BIP-340/341 implementation.", "DESIGN 4 C18"),
 })
-NOT_APPLICABLE = {}
+CHECKS.update({
+ "C19": ("exploration", "bounded-exhaustive enumeration of batch size x invalid position x kind and of every cancelling pair on the real code; EVERY blinder vector on the tiny field (exact acceptance count)",
+         "Sizes 0..N x 3 key layouts (distinct, round-robin, adjacent same key): valid batch, one invalid item at every position x 6 kinds, every pair of positions with complementary / swapped errors; accept <=> every item verifies (library + independent verifier), verify_single <=> verify. On GF(7)/GF(11)/GF(13) every blinder vector is fed through the scripted source: valid batches accepted by all, invalid ones (every error pattern over {0,1,-1,2}^k) by at most q^(k-1).",
+         "The 2^-128 bound on real curves is inferred (generic code + fresh full-width draw per item, C16); exact only on the tiny field.", "DESIGN 4 C19"),
+ "C20": ("exploration", "enumeration of secret-bearing types x shapes x operations with an allocator wrapper reading the freed storage, ManuallyDrop controls",
+         "10 secret-bearing types (incl. the refresh form of the round-one secret package and t = n shapes) x suites x seeds: on drop no freed block contains the in-memory image of any secret scalar (control without destructor must show it, and the box must have been observed); zeroize() leaves every secret getter zero and nothing secret re-encodable; Debug / alternate Debug contain no rendering of any secret scalar.",
+         "Stack / register copies and library-internal temporaries are not 'the storage it occupied' and are only recorded.", "DESIGN 4 C20"),
+})
+NOT_APPLICABLE = {"C02": "check not built yet (Python RFC 9591 reference is the last item of the build order)"}
 
 def main():
     checks = []
